@@ -6,6 +6,7 @@ package c13
 import (
 	"fmt"
 	"reflect"
+	"strconv"
 	"strings"
 	"testing"
 
@@ -362,7 +363,7 @@ func genWCNF(t *rapid.T) WCNFCase {
 // LongCase is a text holding lines of more than 64 KiB (a clause or an objective over thousands of
 // variables), built from a few parameters so that its meaning is known by construction.
 type LongCase struct {
-	Format string `json:"format"` // opb | wcnf | explain | cnf-comment | explain-comment
+	Format string `json:"format"` // opb | wcnf | explain | cnf-comment | explain-comment | explain-wrapped-big | cnf-wrapped-big
 	N      int    `json:"n"`      // variables
 	Repeat int    `json:"repeat"` // how many times the literal list of the long clause is repeated
 	A      int    `json:"a"`      // weights: w_i = 1 + (i*A+B)%9
@@ -512,6 +513,72 @@ func checkLong(c LongCase, o *vf.Obs) error {
 		if got := oracle.Models(3, gs.ProblemPred(pb)); pb.NbVars != 3 || !reflect.DeepEqual(got, want) {
 			return fmt.Errorf("solver.ParseCNF: %d variables and %d models read from a text with a %d-byte comment line; the text has 3 variables and %d models", pb.NbVars, len(got), longest, len(want))
 		}
+	case "explain-wrapped-big", "cnf-wrapped-big":
+		// a text of more than 128 KB whose clauses are each written over several lines (one literal per line, or
+		// two); clause i is derived from (A, B, i); the last clauses pin the variables: exactly one model
+		nCl := c.Repeat
+		var cls [][]int
+		for i := 0; i < nCl; i++ {
+			var cl []int
+			for j := 0; j < 3; j++ {
+				v := 1 + (i*c.A+c.B+j*3)%10
+				if v%2 == 0 { // the model: even variables true, odd ones false; literal j = 0 agrees with it
+					if j > 0 && (i>>uint(j))&1 == 1 {
+						v = -v
+					}
+				} else if j == 0 || (i>>uint(j))&1 == 1 {
+					v = -v
+				}
+				cl = append(cl, v)
+			}
+			cls = append(cls, cl)
+		}
+		for v := 1; v <= 10; v++ { // pin the model with binary clauses (v or v), still wrapped
+			l := v
+			if v%2 == 1 {
+				l = -v
+			}
+			cls = append(cls, []int{l, l})
+		}
+		sb.WriteString(fmt.Sprintf("p cnf 10 %d\n", len(cls)))
+		for i, cl := range cls {
+			for j, l := range cl {
+				sb.WriteString(strconv.Itoa(l))
+				if (i+j+c.B)%3 == 0 {
+					sb.WriteString(" ")
+				} else {
+					sb.WriteString("\n")
+				}
+			}
+			sb.WriteString("0\n")
+		}
+		o.ClassIf(sb.Len() > 128*1024, "text>128KB")
+		if sb.Len() > 128*1024 {
+			o.Nontrivial()
+		}
+		if c.Format == "explain-wrapped-big" {
+			pb, err := explain.ParseCNF(strings.NewReader(sb.String()))
+			if err != nil {
+				return fmt.Errorf("explain.ParseCNF returns an error on a well-formed text of %d bytes with clauses written over several lines: %v", sb.Len(), err)
+			}
+			if len(pb.Clauses) != len(cls) {
+				return fmt.Errorf("explain.ParseCNF read %d clauses from a %d-byte text that holds %d", len(pb.Clauses), sb.Len(), len(cls))
+			}
+			for i := range cls {
+				if !reflect.DeepEqual(pb.Clauses[i], cls[i]) {
+					return fmt.Errorf("explain.ParseCNF: clause %d of a %d-byte text is %v, read as %v", i, sb.Len(), cls[i], pb.Clauses[i])
+				}
+			}
+			return nil
+		}
+		pb, err := solver.ParseCNF(strings.NewReader(sb.String()))
+		if err != nil {
+			return fmt.Errorf("solver.ParseCNF returns an error on a well-formed text of %d bytes with clauses written over several lines: %v", sb.Len(), err)
+		}
+		want := oracle.Models(10, oracle.CNFPred(cls))
+		if got := oracle.Models(10, gs.ProblemPred(pb)); pb.NbVars != 10 || !reflect.DeepEqual(got, want) {
+			return fmt.Errorf("solver.ParseCNF: %d variables and %d models read from a %d-byte text; the text has 10 variables and %d models", pb.NbVars, len(got), sb.Len(), len(want))
+		}
 	case "explain":
 		sb.WriteString(fmt.Sprintf("p cnf %d 2\n", c.N))
 		var want []int
@@ -539,7 +606,7 @@ func checkLong(c LongCase, o *vf.Obs) error {
 }
 
 func genLong(t *rapid.T) LongCase {
-	c := LongCase{Format: rapid.SampledFrom([]string{"opb", "wcnf", "explain", "cnf-comment", "cnf-comment", "explain-comment"}).Draw(t, "format")}
+	c := LongCase{Format: rapid.SampledFrom([]string{"opb", "wcnf", "explain", "cnf-comment", "cnf-comment", "explain-comment", "explain-wrapped-big", "cnf-wrapped-big"}).Draw(t, "format")}
 	c.A, c.B = rapid.IntRange(1, 8).Draw(t, "a"), rapid.IntRange(0, 8).Draw(t, "b")
 	switch c.Format {
 	case "opb":
@@ -547,6 +614,9 @@ func genLong(t *rapid.T) LongCase {
 		for i, k := 0, rapid.IntRange(0, 3).Draw(t, "forced"); i < k; i++ {
 			c.Forced = append(c.Forced, gen.Uniform(t, 1, c.N, "f"))
 		}
+	case "explain-wrapped-big", "cnf-wrapped-big":
+		c.N = 10
+		c.Repeat = gen.Uniform(t, 14000, 24000, "clauses") // about 10 bytes per clause
 	case "cnf-comment", "explain-comment":
 		c.N = gen.Uniform(t, 100, 1000, "n") // comment length = N*Repeat bytes: from 100 bytes to 80 KB
 		c.Repeat = rapid.SampledFrom([]int{1, 5, 8, 20, 80}).Draw(t, "repeat")
@@ -584,8 +654,8 @@ func init() {
 		Rule: "OPB text written from a PB problem (coefficients of either sign, >= / = / <= (as negated >=), trivially true/false constraints, optional min: line with signed coefficients) with layout knobs: '*' comments, explicit '+' or not, several blanks, CRLF, blank lines, optional final newline, and the zero-space forms the grammar allows ('>=0', '0;', 'min:+1'); oracle: parsed problem evaluated without solving has the text's models; Optimal = brute-force optimum; for up to 3 drawn assignments the text extended with unit constraints pinning the assignment yields exactly that assignment's cost, or Unsat when it violates a constraint; non-trivial as above"}
 	subWCNF = vf.Sub[WCNFCase]{Name: "wcnf", Quick: 8000, Thorough: 100000, Gen: genWCNF, Check: checkWCNF, Floor: 0.3,
 		Rule: "WCNF text (p wcnf V C [top], one weighted clause per line) with 'c' comments, several blanks, CRLF, optional final newline; oracle: Optimal = brute-force minimum weight of violated soft clauses; pinned assignments (unit hard clauses) give their exact cost or Unsat; non-trivial as above"}
-	subLong := vf.Sub[LongCase]{Name: "long-lines", Quick: 24, Thorough: 100, Gen: genLong, Check: checkLong, Floor: 0,
-		Rule: "texts with very long lines: DIMACS comment lines of 100 bytes to 80 KB (words, or numbers that would read as clauses) for both DIMACS readers, and lines of more than 64 KiB: an OPB objective / clause over 3000..9000 variables, a WCNF hard clause or a DIMACS clause (for explain.ParseCNF) whose literal list is repeated; the meaning is known by construction (optimum = weight of the forced variables, or the smallest weight; clause list read back as written); non-trivial = the longest line exceeds 65536 bytes (4096 for comments)"}
+	subLong := vf.Sub[LongCase]{Name: "long-lines", Quick: 30, Thorough: 100, Gen: genLong, Check: checkLong, Floor: 0,
+		Rule: "texts with very long lines: DIMACS comment lines of 100 bytes to 80 KB (words, or numbers that would read as clauses) for both DIMACS readers, and lines of more than 64 KiB: an OPB objective / clause over 3000..9000 variables, a WCNF hard clause or a DIMACS clause (for explain.ParseCNF) whose literal list is repeated; and DIMACS texts of more than 128 KB whose 14000..24000 clauses are each written over several lines (both DIMACS readers); the meaning is known by construction (optimum = weight of the forced variables, or the smallest weight; clause list read back as written); non-trivial = the longest line exceeds 65536 bytes (4096 for comments)"}
 	vf.Register(subDimacsSolver, subDimacsExplain, subOPB, subWCNF, subLong)
 }
 
